@@ -409,6 +409,17 @@ def client_stage(c, cfg):
           c.prop_fail('definition-changed-by-study-creation',
                       'the search space read back from the study differs from the definition it was created with (backend %s)' % bname,
                       {'backend': bname, 'defined': dumped, 'read_back': held})
+        # what the client hands out is a VALUE: a caller that edits the materialised configuration (deriving the next
+        # study from this one) must not change what add_trial on THIS study is validated against
+        if si % 2 == 1:
+          try:
+            cfg2 = study.materialize_study_config()
+            names = [pc.name for pc in cfg2.search_space.parameters]
+            if names:
+              cfg2.search_space.pop(names[0])
+            cfg2.search_space.root.add_float_param('c16_added', 0.0, 1.0)
+          except Exception:  # pylint: disable=broad-except
+            pass
         for _ in range(per):
           a, kind = sl.gen_assignment(c.rng, dumped)
           before = len(list(study.trials().get()))
